@@ -101,6 +101,11 @@ class C19(Prop):
                           'object was evaluated: %s -> %s' % (text, dense[:8], dense2[:8]))
                     return v
         except Exception as e:
+            if any(x != x for x in exp):
+                # inf - inf somewhere in the formula: NaN makes min/max and the interval bookkeeping of the dense
+                # monitor order-dependent (it may emit [[0, nan], [0, v], ..] and then fail on it); nothing is determined
+                v.skip = 'raised on a NaN-tainted formula'
+                return v
             v.bad('dense-raises:' + type(e).__name__, '%s: dense evaluate raised %s: %s' % (text, type(e).__name__, e))
             return v
         try:
